@@ -24,8 +24,6 @@ OUT_OF_DOMAIN = {"C11-r6-2": "NOT REACHED: needs a swap of two same-layout views
                  "C12-r6-2": "NOT REACHED: needs reinterpret_array_cast between element types whose sizes are not multiples of each other (12 -> 8 bytes) on a strided view; "
                              "Projection.tla has one record type (two shorts) and casts to 2- and 4-byte types only",
                  "C17-r6-1": "NOT REACHED: needs an extent of 2^31 or more; the archives of C17 hold arrays with extents up to 3 (and TLC's integers are 32-bit)",
-                 "C17-r6-2": "NOT REACHED: needs an array with a stateful, non-swap-propagating allocator (pmr) as the target of a load; C17 loads into arrays with the "
-                             "default allocator and C10 does not include serialization",
                  "C15-r5-1": "the change only manifests when input and output are views of the SAME memory with different strides (in-place transposition through "
                              "the four-argument dft); neither the adaptor's README nor the library's documents such aliasing (the library's README calls overlapping "
                              "sources and destinations undefined), so no check demands it",
